@@ -37,7 +37,7 @@ PROP = dict(
                            "state:has-empty-fragment": 100000, "state:wrapped-ring": 1000,
                            "monitor:append-fixed-refused": 100000, "monitor:append-fixed-refused-after-head": 50000,
                            "monitor:append-fixed-accepted": 100000}),
-              dict(name="c17_cxx", src=["c17_cxx.cpp"], libs=["mpt++", "mptio", "mptplot", "mptcore"], batch=512,
+              dict(name="c17_cxx", memcheck=500, src=["c17_cxx.cpp"], libs=["mpt++", "mptio", "mptplot", "mptcore"], batch=512,
                    floors={"message::read": 200000, "message::length": 200000, "monitor:read-step": 200000,
                            "state:two-or-more-fragments": 10000, "state:has-empty-fragment": 10000})],
         rule=("case = one (byte string, fragment list) pair run through the whole operation battery (C leg) resp. all read plans "
